@@ -1,6 +1,7 @@
 import RtcVerif.Model.C11
 import RtcVerif.Proofs.C11Lemmas
 import RtcVerif.Proofs.C11Roundtrip
+import RtcVerif.Proofs.C11Neq
 /-!
 # C11 — time-series files round-trip: what is written is what is read
 
@@ -543,6 +544,87 @@ theorem C11_resize_keeps_values (d : Int) (hd : 0 < d) (ws : List (Int × Int)) 
     · rw [if_neg hall, if_neg]
       intro h
       exact hall (fun w' hw' => h w' (List.mem_cons_of_mem _ hw'))
+
+/-- **Resizing a nonequidistant series** (to a window between two of its stamps; growing is
+    rejected by the code) slices values and stamps together: the new stamps are exactly the old
+    stamps inside the window, and every series holds at each of them the value it held before
+    (repaired code, commit c8258f8: the stamps follow the values). -/
+theorem C11_resize_neq_keeps_values (s : Store) (hdt : s.dt = none) (hinc : RtcVerif.C12.Inc s.times)
+    (hhead : s.times.head? = some s.start) (hlast : s.times.getLast? = some s.stop)
+    (ns ne : Int) (hns : ns ∈ s.times) (hne : ne ∈ s.times) (hle : ns ≤ ne) :
+    ∃ s', resize ns ne s = some s' ∧ s'.start = ns ∧ s'.stop = ne ∧ s'.dt = none ∧
+      (∀ t, t ∈ s'.times ↔ t ∈ s.times ∧ ns ≤ t ∧ t ≤ ne) ∧
+      ∀ m v vals, s.get m v = some vals → vals.length = s.times.length →
+        ∃ vals', s'.get m v = some vals' ∧ vals'.length = s'.times.length ∧
+          ∀ t ∈ s'.times, RtcVerif.C12.lookupAt s'.times vals' t = RtcVerif.C12.lookupAt s.times vals t := by
+  -- positions of the window in the stamp list
+  have hi := RtcVerif.C12.bisect_lt_length s.times ns hns
+  have hj := RtcVerif.C12.bisect_lt_length s.times ne hne
+  have hij := RtcVerif.C12.bisect_mono s.times hinc ns ne hns hne hle
+  have hstartmem : s.start ∈ s.times := List.mem_of_head? hhead
+  have hstopmem : s.stop ∈ s.times := List.mem_of_getLast? hlast
+  have hb0 : RtcVerif.C12.bisectLeft s.times s.start = 0 := by
+    cases ht : s.times with
+    | nil => rw [ht] at hhead; cases hhead
+    | cons t l =>
+      rw [ht] at hhead
+      simp only [List.head?_cons, Option.some.injEq] at hhead
+      subst hhead
+      simp [RtcVerif.C12.bisectLeft]
+  have hbl : RtcVerif.C12.bisectLeft s.times s.stop + 1 = s.times.length := by
+    rw [← bisect_eq]; exact bisectLeft_last s.times hinc s.stop hlast
+  have hstart_le : s.start ≤ ns := by
+    by_contra h
+    have h' : ns ≤ s.start := by omega
+    have := RtcVerif.C12.bisect_mono s.times hinc ns s.start hns hstartmem h'
+    rw [hb0] at this
+    have e := RtcVerif.C12.bisect_inj s.times hinc ns s.start hns hstartmem (by omega)
+    omega
+  have hle_stop : ne ≤ s.stop := by
+    by_contra h
+    have h' : s.stop ≤ ne := by omega
+    have := RtcVerif.C12.bisect_mono s.times hinc s.stop ne hstopmem hne h'
+    have e := RtcVerif.C12.bisect_inj s.times hinc s.stop ne hstopmem hne (by omega)
+    omega
+  let f : List XVal → List XVal := fun v =>
+    shiftEnd ((bisectLeft s.times ne : Int) - (bisectLeft s.times s.stop : Int))
+      (shiftStart ((bisectLeft s.times ns : Int) - (bisectLeft s.times s.start : Int)) v)
+  let s' : Store :=
+    { s with start := ns
+             stop := ne
+             times := (s.times.take (bisectLeft s.times ne + 1)).drop (bisectLeft s.times ns)
+             slots := mapVals f s.slots }
+  have hres : resize ns ne s = some s' := by
+    unfold resize
+    split
+    · rename_i d hd
+      rw [hdt] at hd
+      cases hd
+    · rw [if_neg (by omega)]
+  have htimes : s'.times = slice (RtcVerif.C12.bisectLeft s.times ns) (RtcVerif.C12.bisectLeft s.times ne) s.times := by
+    show (s.times.take (bisectLeft s.times ne + 1)).drop (bisectLeft s.times ns) = _
+    rw [bisect_eq, bisect_eq]
+    rfl
+  have hf : ∀ vals : List XVal, vals.length = s.times.length →
+      f vals = slice (RtcVerif.C12.bisectLeft s.times ns) (RtcVerif.C12.bisectLeft s.times ne) vals := by
+    intro vals hl
+    show shiftEnd _ (shiftStart _ vals) = _
+    rw [bisect_eq, bisect_eq, bisect_eq, bisect_eq, hb0]
+    have : ((RtcVerif.C12.bisectLeft s.times s.stop : Nat) : Int) = (s.times.length : Int) - 1 := by omega
+    rw [this]
+    exact shift_slice s.times.length _ _ hij hj vals hl
+  have hget : ∀ m v, s'.get m v = (s.get m v).map f := fun m v => get_mapVals _ s _ m v rfl s' rfl
+  refine ⟨s', hres, rfl, rfl, hdt, ?_, ?_⟩
+  · intro t
+    rw [htimes]
+    exact mem_slice_times s.times hinc ns ne hns hne t
+  · intro m v vals hsv hl
+    refine ⟨f vals, by rw [hget m v, hsv]; rfl, ?_, ?_⟩
+    · rw [hf vals hl, htimes]
+      simp only [slice, List.length_drop, List.length_take, hl]
+    · intro t ht
+      rw [hf vals hl, htimes] at *
+      exact lookup_slice s.times hinc vals _ _ t ht
 
 /-- finding F26 (machine-checked witness, code before f5e4157): a window that starts more than one
     step after the old end — old stamps 0..4 h, new window 7..11 h — gave 7 values instead of 5;
